@@ -1,4 +1,5 @@
 import CalicoVerif.Proofs.C16j
+import CalicoVerif.Gen.C16
 /-!
 C16 — IP set sync converges and never breaks rules that use a set.
 Property theorems over the model `CalicoVerif.Model.C16` of felix/ipsets (`IPSets`) and of the
@@ -72,6 +73,24 @@ theorem swap_atomic {c : Cfg} (hc : CfgOK c) {ord : List String → List String}
     have := hc.tempIsTemp k
     rw [← hmem, hn] at this
     exact absurd this (by simp)
+
+/-- Index of the first occurrence of an event in a schedule. -/
+def idxOf (l : List String) (x : String) : Nat := l.findIdx (· == x)
+
+/-- **creates_before_tables_deletes_after**: in `InternalDataplane.apply()` (schedule regenerated from
+the source on every run by translate/c16) the IP set updates are started and JOINED before any table
+is applied, and the IP set deletions are only started after every table apply/clean-up has been
+joined.  (`decide` over the generated finite list.) -/
+theorem creates_before_tables_deletes_after :
+    let s := Gen.applySchedule
+    idxOf s "ipsets.ApplyUpdates" < idxOf s "ipSetsWG.Wait" ∧
+    idxOf s "ipSetsWG.Wait" < idxOf s "tables.Apply" ∧
+    idxOf s "tables.Apply" < idxOf s "iptablesWG.Wait" ∧
+    idxOf s "tables.CleanUp" < idxOf s "iptablesWG.Wait" ∧
+    idxOf s "iptablesWG.Wait" < idxOf s "ipsets.ApplyDeletions" ∧
+    idxOf s "ipsets.ApplyDeletions" < s.length ∧
+    (s.filter (· == "ipsets.ApplyUpdates")).length = 1 ∧ (s.filter (· == "ipsets.ApplyDeletions")).length = 1 ∧
+    (s.filter (· == "tables.Apply")).length = 1 := by decide
 
 /-! ### Non-vacuity -/
 
